@@ -389,6 +389,19 @@ def sub_consistent(t):
     return f
 
 
+def found_fits(f, hay_len, needle_len, some=1):
+    """semantic fact about a search result (established by C04's SCAN rule, assumed here): `f`
+    (find/rfind(hay, needle)) can only be Some when the needle is no longer than the haystack"""
+    def g(case):
+        try:
+            if case.variants.get(f) != some:
+                return True
+            return case.val(needle_len) <= case.val(hay_len)
+        except KeyError:
+            return True
+    return g
+
+
 class Row:
     def __init__(self, guards, outcome, kind="return", name=None):
         self.guards = [norm_atom(g) for g in guards]
